@@ -44,6 +44,8 @@ def add_data_vars(rng, ds, kinds, *, n_extra_max=2, allow_time=True, names_prefi
     counter = [1]
     extra_pool = [('time', rng.randint(1, 3)), ('k', rng.randint(1, 3)), ('e', 2)]
     for kind, gdims in kinds.items():
+        if any(x not in ds.sizes for x in gdims):
+            continue            # a grid kind whose dimension no variable uses (declared edge dimension, nothing on edges)
         nvars = rng.randint(1, 2) if every_kind else rng.randint(0, 1)
         for v in range(nvars):
             if fixed_extra is not None:
@@ -128,7 +130,8 @@ def contiguous_bounds(rng, vals):
 # --------------------------------------------------------------------------------------------
 # CF 1-D
 
-def cf1d(rng, *, ny=None, nx=None, bounds=None, as_coords=None, dim_names=None, min_len=2, bad_bounds=None, mixed_dtypes=None, global_lon=False):
+def cf1d(rng, *, ny=None, nx=None, bounds=None, as_coords=None, dim_names=None, min_len=2, bad_bounds=None, mixed_dtypes=None, global_lon=False, bounds_on=None):
+    # bounds_on: 'lat' / 'lon' - only that coordinate declares bounds (legal CF); the other one's cells come from its centres
     ny = ny or rng.randint(min_len, 6)
     nx = nx or rng.randint(min_len, 6)
     if bounds is None:
@@ -180,6 +183,12 @@ def cf1d(rng, *, ny=None, nx=None, bounds=None, as_coords=None, dim_names=None, 
         variables['lat_bnds'] = ((ydim, 'bnds'), numpy.array(lat_b))
         variables['lon_bnds'] = ((xdim, 'bnds'), numpy.array(lon_b))
         spec['bounds'] = {'lat': lat_b, 'lon': lon_b}
+        if bounds_on in ('lat', 'lon'):
+            drop = 'lon' if bounds_on == 'lat' else 'lat'
+            variables.pop(f'{drop}_bnds')
+            (lon_attrs if drop == 'lon' else lat_attrs).pop('bounds')
+            spec['bounds'] = None
+            spec['bounds_on'] = bounds_on
         if bad_bounds:
             # bounds variables the convention must refuse (wrong layout): the cells are then derived from the centres
             if bad_bounds == 'transposed':
@@ -208,7 +217,7 @@ def cf1d(rng, *, ny=None, nx=None, bounds=None, as_coords=None, dim_names=None, 
         else:
             ds = xarray.Dataset(data_vars={**coordvars, **variables})
     spec['label'] = f'cf1d {ny}x{nx} bounds={bool(bounds)}' + (f' refused-bounds={bad_bounds}' if bad_bounds else '') + (
-        f' dtypes={mixed_dtypes}' if mixed_dtypes else '') + (' global' if global_lon else '')
+        f' dtypes={mixed_dtypes}' if mixed_dtypes else '') + (' global' if global_lon else '') + (f' bounds-on-{bounds_on}-only' if bounds_on else '')
     spec['nx'] = nx
     spec['kinds'] = {'face': [ydim, xdim]}
     spec['kind_order'] = ['face']
@@ -348,7 +357,7 @@ def cf2d(rng, *, ny=None, nx=None, bounds=None, holes=None, shoc_simple=False, a
 # --------------------------------------------------------------------------------------------
 # Arakawa C / SHOC standard
 
-def arakawa(rng, *, nj=None, ni=None, holes=None, shoc=True, invalid=None, transposed_coords=(), orphan_nodes=False):
+def arakawa(rng, *, nj=None, ni=None, holes=None, shoc=True, invalid=None, transposed_coords=(), orphan_nodes=False, plain=False):
     nj = nj or rng.randint(1, 5)
     ni = ni or rng.randint(1, 5)
     ax, ay = rng.choice([(8, 0), (8, 2), (6, -2)])
@@ -405,9 +414,18 @@ def arakawa(rng, *, nj=None, ni=None, holes=None, shoc=True, invalid=None, trans
                 # the same coordinate stored with its dimensions the other way round (i, j): legal, xarray aligns by name
                 coords[nm] = (dims[kind][::-1], arr.T.copy(), coords[nm][2])
     ds = xarray.Dataset(coords=coords, attrs={'title': 'generated SHOC standard'})
+    if plain:
+        # not a SHOC file: an Arakawa C grid with names of its own, given to the convention by hand
+        # (ArakawaC(dataset, coordinate_names=...).bind(), the documented way)
+        ren = {'y_centre': 'lat_face', 'x_centre': 'lon_face', 'y_left': 'lat_left', 'x_left': 'lon_left',
+               'y_back': 'lat_back', 'x_back': 'lon_back', 'y_grid': 'lat_node', 'x_grid': 'lon_node'}
+        ds = ds.rename(ren)
+        from emsarray.conventions.arakawa_c import ArakawaC
+        ArakawaC(ds, coordinate_names={'face': ('lat_face', 'lon_face'), 'left': ('lat_left', 'lon_left'),
+                                       'back': ('lat_back', 'lon_back'), 'node': ('lat_node', 'lon_node')}).bind()
     spec = {'nj': nj, 'ni': ni, 'hole': hole, 'hole_kind': hole_kind, 'xg': xg, 'yg': yg, 'xc': xc, 'yc': yc,
             'node_missing': node_missing,
-            'label': f'shoc_standard {nj}x{ni} holes={hole_kind}' + (f' stored-ij={sorted(transposed_coords)}' if transposed_coords else ''),
+            'label': f'shoc_standard {nj}x{ni} holes={hole_kind}' + (f' stored-ij={sorted(transposed_coords)}' if transposed_coords else '') + (' plain ArakawaC' if plain else ''),
             'kinds': {k: list(dims[k]) for k in ['face', 'left', 'back', 'node']},
             'kind_order': ['face', 'left', 'back', 'node']}
     return DS('shoc_standard', ds, spec)
@@ -521,7 +539,10 @@ def derive_tables(rng, faces, shuffle_edges=True):
 
 def ugrid(rng, *, w=None, h=None, start_index=None, fill=None, transposed=None, supplied=None,
           edge_dim_declared=None, coords_as_coords=None, face_coords=None, mesh=None, variety=True,
-          invalid=None, bare_zero_based=(), extra_width=0):
+          invalid=None, bare_zero_based=(), extra_width=0, stale_attrs=(), phantom_edge_dim=False, mesh_var_dim=False):
+    # stale_attrs: mesh attributes naming optional connectivity variables that are not in the file (emsarray documents this case)
+    # phantom_edge_dim: an edge_dimension attribute although nothing is stored on edges (xarray drops unused dimensions)
+    # mesh_var_dim: the mesh topology dummy variable has a length-one dimension (`int mesh(one)`), as some writers make it
     # extra_width: face tables wider than the largest face (every row padded with fill entries), as some models write them
     # bare_zero_based: connectivity roles stored zero-based WITHOUT a start_index attribute (UGRID: a missing attribute means
     # 0 for that variable) while the other tables carry the dataset's start_index
@@ -636,7 +657,12 @@ def ugrid(rng, *, w=None, h=None, start_index=None, fill=None, transposed=None, 
         coordvars['Mesh2_face_x'] = ((fdim,), fx, {'standard_name': 'longitude'})
         coordvars['Mesh2_face_y'] = ((fdim,), fy, {'standard_name': 'latitude'})
         mesh_attrs['face_coordinates'] = 'Mesh2_face_x Mesh2_face_y'
+    for role in stale_attrs:
+        if role not in mesh_attrs:
+            mesh_attrs[role] = 'Mesh2_not_in_this_file'
     variables['Mesh2'] = xarray.DataArray(numpy.int32(0), attrs=mesh_attrs)
+    if mesh_var_dim:
+        variables['Mesh2'] = xarray.DataArray(numpy.zeros(1, dtype='i4'), dims=['one'], attrs=mesh_attrs)
     attrs = {'Conventions': 'UGRID-1.0', 'title': 'generated mesh'}
     if coords_as_coords:
         ds = xarray.Dataset(data_vars=variables, coords=coordvars, attrs=attrs)
@@ -646,7 +672,7 @@ def ugrid(rng, *, w=None, h=None, start_index=None, fill=None, transposed=None, 
     kinds = {'node': [ndim], 'face': [fdim]}
     if has_edge_dim:
         kinds['edge'] = [edim]
-        if edim not in ds.sizes:
+        if edim not in ds.sizes and not phantom_edge_dim:
             # the edge dimension is declared but no connectivity variable uses it: give it a size
             # through a data variable (a dimension no variable uses has no size in xarray)
             ds['edge_marker'] = xarray.DataArray(numpy.arange(ne, dtype='f8') + 7000, dims=[edim])
@@ -657,7 +683,9 @@ def ugrid(rng, *, w=None, h=None, start_index=None, fill=None, transposed=None, 
             'nn': nn, 'nf': nf, 'ne': ne, 'maxn': maxn, 'uniform': uniform,
             'dims': {'face': fdim, 'node': ndim, 'edge': edim, 'max': mdim, 'two': two},
             'label': f'ugrid nf={nf} nn={nn} maxn={maxn} si={start_index}{"(bare 0: " + ",".join(sorted(bare_zero_based)) + ")" if bare_zero_based else ""} fill={fill} T={transposed} '
-                     f'sup={sorted(supplied)} edim={"edge_dimension" in mesh_attrs} coords={coords_as_coords}',
+                     f'sup={sorted(supplied)} edim={"edge_dimension" in mesh_attrs} coords={coords_as_coords}'
+                     + (f' stale={sorted(stale_attrs)}' if stale_attrs else '') + (' phantom-edge-dim' if phantom_edge_dim else '')
+                     + (' mesh(one)' if mesh_var_dim else ''),
             'kinds': kinds, 'kind_order': ['node', 'face'] + (['edge'] if has_edge_dim else [])}
     return DS('ugrid', ds, spec)
 
